@@ -237,10 +237,76 @@ func ruleMatcherBodies(r *Run) {
 			continue
 		}
 		n := 0
-		for _, c := range callsIn(fn) {
-			if !invokeIs(c, "Compare") {
-				continue
+		// the comparison may sit in Process or in a method of the filter that Process hands on as
+		// a bound method value (lf.compare)
+		type site struct {
+			c    ssa.CallInstruction
+			host *ssa.Function
+		}
+		var sites []site
+		hosts := []*ssa.Function{fn}
+		allInstrs(fn, func(in ssa.Instruction) {
+			mc, ok := in.(*ssa.MakeClosure)
+			if !ok {
+				return
 			}
+			w, _ := mc.Fn.(*ssa.Function)
+			if w == nil {
+				return
+			}
+			var wrapped []*ssa.Function
+			if w.Blocks != nil {
+				// through the wrapper and any instantiation thunk to the method itself
+				cur := []*ssa.Function{w}
+				for d := 0; d < 3; d++ {
+					var next []*ssa.Function
+					for _, f := range cur {
+						for _, wc := range callsIn(f) {
+							if m := staticCallee(wc); m != nil && m.Blocks != nil {
+								if m.Synthetic != "" {
+									next = append(next, m)
+								} else {
+									wrapped = append(wrapped, m)
+								}
+							}
+						}
+					}
+					cur = next
+				}
+			} else if strings.HasSuffix(w.Name(), "$bound") {
+				// the wrapper of a generic method has no body of its own: go by the method it binds
+				mn := strings.TrimSuffix(w.Name(), "$bound")
+				if i := strings.LastIndex(mn, "."); i >= 0 {
+					mn = mn[i+1:]
+				}
+				if m := p.Method(enginePkg, tn, mn); m != nil {
+					wrapped = append(wrapped, m)
+				}
+			}
+			for _, m := range wrapped {
+				if m != nil && m.Blocks != nil && m.Signature.Recv() != nil && fn.Signature.Recv() != nil {
+					mo, fo := m, fn
+					if mo.Origin() != nil {
+						mo = mo.Origin()
+					}
+					if fo.Origin() != nil {
+						fo = fo.Origin()
+					}
+					if typeKey(mo.Signature.Recv().Type()) == typeKey(fo.Signature.Recv().Type()) {
+						hosts = append(hosts, m)
+					}
+				}
+			}
+		})
+		for _, h := range hosts {
+			for _, c := range callsIn(h) {
+				if invokeIs(c, "Compare") {
+					sites = append(sites, site{c, h})
+				}
+			}
+		}
+		for _, st := range sites {
+			c, fn := st.c, st.host
 			n++
 			args := c.Common().Args
 			if len(args) != 2 {
